@@ -124,7 +124,7 @@ def main(tier):
                     continue
                 if o["pad_force"] != 0.0:
                     rep.violation("padding_atom_has_force", {"layout": l, "mol": m, "value": o["pad_force"]}, **fields)
-                names_cmp = ("Etot", "Hf", "force", "q", "gap", "e_mo", "dipole") + (("cis",) if "cis" in o and "cis" in s else ())
+                names_cmp = ("Etot", "Hf", "force", "q", "gap", "e_mo", "dipole") + (("cis",) if "cis" in o and "cis" in s else ()) + (("kernel", "krylov_error") if "kernel" in o and "kernel" in s else ())
                 for name in names_cmp:
                     d = cmp(o[name], s[name], 0)
                     tol = TOL_F if name in ("force", "dipole") else TOL_E
